@@ -582,6 +582,79 @@ def forward (e : Encoder R) (rows cols numNames : Nat) (feat : Feat R) : Option 
     let x := map2 (Post.apply S e.post) x
     pure ⟨rows, cols, e.ch, x⟩
 
+
+/-! ### the per-cell specification of `forward` (what C13 says an encoder is) -/
+
+/-- one cell of a feature block, as its encoder sees it -/
+inductive CellVal (R : Type) where
+  | num (x : R)
+  | cat (i : Int)
+  | bag (b : List Int)
+  | time (ts : List Int)
+  | emb (v : List R)
+
+/-- cell `(r, c)` of a block; for pre-computed embeddings the slice the encoder's `emb_dim_list` selects -/
+def cellAt (p : Params R) (feat : Feat R) (r c : Nat) : Option (CellVal R) :=
+  match feat with
+  | .num x => (cell x r c).map .num
+  | .cat x => (cell x r c).map .cat
+  | .bags x => (cell x r c).map .bag
+  | .time x => (cell x r c).map .time
+  | .emb _ vals =>
+    match p with
+    | .linearEmb ds _ _ =>
+      (vals[r]?).bind fun row =>
+        if c < ds.length then some (.emb ((row.drop ((embStarts ds).getD c 0)).take (ds.getD c 0))) else none
+    | _ => none
+
+/-- `na_forward` on one cell of column `c`: a missing cell becomes `fill_values[c]` -/
+def cellImpute (fill : Option (Fill R)) (c : Nat) (v : CellVal R) : Option (CellVal R) :=
+  match fill, v with
+  | none, v => some v
+  | some (.num f), .num x => (f[c]?).map fun fc => .num (if S.isNaN x then fc else x)
+  | some (.int f), .cat i => (f[c]?).map fun fc => .cat (if i == -1 then fc else i)
+  | some (.int f), .bag b => (f[c]?).map fun fc => .bag (b.map fun t => if t == -1 then fc else t)
+  | some (.time f), .time ts => (f[c]?).map fun fc => .time (if ts.any (· == -1) then fc else ts)
+  | _, _ => none
+
+/-- `encode_forward` on one cell, with the parameters and statistics of column `c` only -/
+def cellEncode (p : Params R) (ch c : Nat) (v : CellVal R) : Option (List R) :=
+  match p, v with
+  | .linear n w b, .num x =>
+      (n.mean[c]?).bind fun m => (n.std[c]?).bind fun s => (w[c]?).bind fun wc => (b[c]?).map fun bc =>
+        cellLinear S m s wc bc x
+  | .stack n, .num x => (n.mean[c]?).bind fun m => (n.std[c]?).map fun s => cellStack S m s ch x
+  | .bucket q w b, .num x => (w[c]?).bind fun W => (b[c]?).map fun bc => cellBucket S (q.getD c []) W bc ch x
+  | .periodic n li lo, .num x =>
+      (n.mean[c]?).bind fun m => (n.std[c]?).bind fun s => (li[c]?).bind fun l => (lo[c]?).map fun W =>
+        cellPeriodic S m s l W ch x
+  | .excel n w1 w2 b1 b2, .num x =>
+      (n.mean[c]?).bind fun m => (n.std[c]?).bind fun s => (w1[c]?).bind fun u1 => (w2[c]?).bind fun u2 =>
+        (b1[c]?).bind fun v1 => (b2[c]?).map fun v2 => cellExcel S m s u1 u2 v1 v2 x
+  | .embedding off t, .cat i => (off[c]?).map fun o => t.getD (embIndex o i).toNat []
+  | .bag mode ts, .bag b => if c < ts.length then some (bagReduce S mode (ts.getD c []) ch b) else none
+  | .timestamp ys mv os w b, .time ts =>
+      (ys[c]?).bind fun my => (w[c]?).bind fun W => (b[c]?).map fun bc => cellTimestamp S my mv os W bc ch ts
+  | .linearEmb _ ws bs, .emb v => (bs[c]?).map fun bc => cellLinearEmb S (ws.getD c []) bc ch v
+  | _, _ => none
+
+/-- the whole `forward` on one cell: impute, encode, `nan_to_num`, post module -/
+def cellForward (e : Encoder R) (c : Nat) (v : CellVal R) : Option (List R) :=
+  (cellImpute S e.fill c v).bind fun v' => (cellEncode S e.params e.ch c v').map fun y =>
+    Post.apply S e.post (y.map S.nanToNum)
+
+/-- the indices a cell sends to `Embedding` / `EmbeddingBag` and the calendar values it sends to the positional /
+    cyclic encodings are inside their domains (otherwise the batch raises) -/
+def cellDomainOk (p : Params R) (c : Nat) (v : CellVal R) : Bool :=
+  match p, v with
+  | .embedding off t, .cat i =>
+      match off[c]? with
+      | some o => decide (0 ≤ embIndex o i) && decide (embIndex o i < t.length)
+      | none => true
+  | .bag _ ts, .bag b => bagInRange (ts.getD c []) b
+  | .timestamp ys mv _ _ _, .time ts => match ys[c]? with | some my => tsDomainOk mv ts my | none => true
+  | _, _ => true
+
 end build
 
 /-! ## 5. `StypeWiseFeatureEncoder` -/
